@@ -46,6 +46,9 @@ pub struct Config {
     pub plain_io: bool,
     /// legacy devices: metadata block without checksum, as the released v1/v2 wrote it
     pub legacy_plain_meta: bool,
+    /// number of CPUs visible while the store is opened (0 = all): workers = max(1, n/2)
+    #[serde(default)]
+    pub visible_cpus: u8,
 }
 
 #[derive(Clone, Copy, Debug, Serialize, Deserialize, PartialEq, Eq)]
@@ -310,8 +313,10 @@ pub fn config_strategy(b: &Bias) -> BoxedStrategy<Config> {
         8 => Just(None),
         b.memory_limit => (2_000usize..40_000).prop_map(Some),
     ];
-    (persistent, version, ttl, cache, dev, mem, proptest::bool::weighted(0.75), any::<bool>())
-        .prop_map(|(persistent, version, ttl, cache, dev, max_memory, plain_io, legacy_plain_meta)| Config {
+    let cpus = prop_oneof![Just(2u8), Just(2u8), Just(4u8), Just(6u8), Just(8u8), Just(0u8)];
+    (persistent, version, ttl, cache, dev, mem, proptest::bool::weighted(0.75), any::<bool>(), cpus)
+        .prop_map(|(persistent, version, ttl, cache, dev, max_memory, plain_io, legacy_plain_meta, visible_cpus)| Config {
+            visible_cpus,
             persistent,
             version: if persistent { version } else { 3 },
             cache: persistent && cache,
